@@ -106,6 +106,7 @@ class Run:
         self.pokes, self.failed_conns = [], set()
         self.known_state = {}       # id(conn) -> "rw" the model currently believes
         self.known_err = set()      # id(conn) whose error flag the model knows about
+        self.predicted = set()      # id(conn) whose state the model predicted in the current step
         self.n_sent, self.n_answered = {}, {}
         self.oracle_fail = []
 
@@ -247,6 +248,7 @@ class Run:
             self.h1_sent = 0
             for s in case["steps"]:
                 self.step_out = []
+                self.predicted = set()
                 getattr(self, "do_" + s["k"])(s)
                 if self.h2: self.pump()
                 self.sync_states()
@@ -290,7 +292,8 @@ class Run:
             if id(c) not in self.known_state:
                 self.known_state[id(c)] = "00"
             st = ("1" if c.state & ConnectionState.CAN_READ else "0") + ("1" if c.state & ConnectionState.CAN_WRITE else "0")
-            if st != self.known_state[id(c)]:
+            if st != self.known_state[id(c)] and id(c) not in self.predicted:
+                # (a state the model predicted in this step is never corrected: a wrong prediction shows in the dump)
                 self.model_lines.append(f"state {i} {st[0]} {st[1]}")
                 self.known_state[id(c)] = st
             if bool(c.error) and id(c) not in self.known_err:
@@ -383,6 +386,7 @@ class Run:
             closes = bool(s.get("close"))
             self.model_lines.append(f"rdone {self.cid_of(c)} {int(closes)}")
             if closes or self.h2: self.known_state[id(c)] = "00"
+            self.predicted.add(id(c))
 
     def do_close(self, s):
         sv = self.servers()
@@ -393,6 +397,7 @@ class Run:
             # the model predicts the reaction to the peer's FIN (the state of the tunnel entry, if any, is synced)
             self.model_lines.append(f"pclose {self.cid_of(logical)}")
             if self.known_state.get(id(logical), "00")[0] == "1": self.known_state[id(logical)] = "00"
+            self.predicted.add(id(logical))
 
     def do_poke(self, s):
         if s["c"] == "ctx":
